@@ -20,6 +20,8 @@ CLAUSE_OF = {
     "P6": ("C12", "DISCONNECT 0x93 although the peer was within its receive-maximum quota"),
     "P7": ("C11", "PUBCOMP(success) for an id without a preceding PUBREC"),
     "P8": ("C04", "the protocol service saw control packets out of arrival order"),
+    "P10": ("C11", "an identifier whose exchange has ended is still refused as in use"),
+    "P11": ("C11", "PUBCOMP(success) written for an identifier that was not awaiting a PUBREL"),
     "P9": ("C17", "a handler saw a topic that is not the latest binding of the alias used"),
 }
 # recorded findings that the scan can hit (see known_findings.json)
@@ -76,6 +78,63 @@ def p9(v, case, obs):
     return []
 
 
+def p10(v, case, obs):
+    """C11/C03: an id whose exchange has ended (PUBACK written, negative PUBREC, PUBCOMP) is accepted again, and a
+    PUBCOMP(success) is only written in answer to a PUBREL for an id whose positive PUBREC was written"""
+    if obs == "9999":
+        return []
+    fields = [[int(t) for t in f.split(",")] for f in case.split(";")]
+    ops = fields[1:]
+    of = obs.split(";")
+    if len(of) != len(ops):
+        return []
+    busy, pubrec_ok = set(), set()
+    rel_pending, rel_dup = set(), set()
+    peer_bad = False          # the peer reused an id before it saw the end of the exchange: P10 says nothing
+    for n, (op, f) in enumerate(zip(ops, of)):
+        try:
+            wire, hs, ps, stop1, nstop, is_open = I.parse_obs(f)
+        except ValueError:
+            return []
+        new_pub = None
+        if op[0] == 1 and op[1] == 1 and len(op) >= 8 and op[2] > 0:
+            if op[3] not in busy:
+                new_pub = op[3]
+            else:
+                peer_bad = True
+        if op[0] == 1 and op[1] == 4:
+            if op[2] in rel_pending:
+                rel_dup.add(op[2])   # a second PUBREL before the PUBCOMP: both may be answered
+            rel_pending.add(op[2])
+        if op[0] == 1 and op[1] in (6, 7):
+            busy.add(op[2])          # SUBSCRIBE / UNSUBSCRIBE ids share the id space
+        for (t, pid, r) in wire:
+            if r == 0x91 and t in (0x40, 0x50, 0x90, 0xB0):
+                if new_pub is not None and pid == new_pub and t in (0x40, 0x50) and not peer_bad:
+                    return ["P10 id %d refused as in use although its previous exchange has ended (op %d)" % (
+                        pid, n + 1)]
+                continue             # the in-use answer does not end the exchange that holds the id
+            if t in (0x40, 0x90, 0xB0):
+                busy.discard(pid)
+            elif t == 0x50:
+                if r >= 0x80:
+                    busy.discard(pid)
+                else:
+                    pubrec_ok.add(pid)
+            elif t == 0x70:
+                if r != 0:
+                    continue         # "packet identifier not found": answers a stray PUBREL, ends nothing
+                rel_pending.discard(pid)
+                if pid not in pubrec_ok and pid not in rel_dup:
+                    return ["P11 PUBCOMP(success) for id %d whose positive PUBREC was not written (op %d)" % (
+                        pid, n + 1)]
+                pubrec_ok.discard(pid)
+                busy.discard(pid)
+        if new_pub is not None and is_open:
+            busy.add(new_pub)
+    return []
+
+
 class InbPart(Part):
     SHRINK_FIELDS_FIRST = True
     SHRINK_FIELDS_ONLY = True
@@ -96,12 +155,14 @@ class InbPart(Part):
                 bad = []
         if "C17" in self.want:
             bad = bad + p9(self.ver, case, obs)
+        if ("C11" in self.want or "C03" in self.want) and self.engine.startswith("inb"):
+            bad = bad + p10(self.ver, case, obs)
         for b in bad:
             code = b.split(" ")[0]
             if code in ("P6", "P7"):
                 continue               # imprecise for peers that release before the PUBREC (see DESIGN 10.3)
             prop = CLAUSE_OF.get(code, ("?", ""))[0]
-            if prop in self.want:
+            if prop in self.want or (code in ("P10", "P11") and "C03" in self.want):
                 for k, name in KNOWN.items():
                     if b.startswith(k):
                         return "0,known," + name
